@@ -238,6 +238,15 @@ class Array(Base):
     def _extract_units(self, args):
         return tuple(self._maybe_unit(a) for a in args)
 
+    def _unit_of_data(self, args):
+        # The unit of the result is that of the first operand that holds data: a
+        # boolean Array, such as the condition of np.where or np.compress, only selects
+        for arg in args:
+            for a in arg if isinstance(arg, (tuple, list)) else (arg,):
+                if isinstance(a, self.__class__) and a.dtype != bool:
+                    return a.unit
+        return self.unit
+
     def _wrap_numpy(self, func, *args, **kwargs):
         if isinstance(args[0], (tuple, list)):
             array_args = (
@@ -255,7 +264,7 @@ class Array(Base):
                     **{key: a for key, a in kwargs.items() if key != "out"},
                 ).units
             else:
-                unit = self.unit
+                unit = self._unit_of_data(args)
 
         if "out" in kwargs:
             # ufuncs pass a tuple of outputs, array functions (np.sum, np.cumsum,
